@@ -58,6 +58,12 @@ def families(tier):
         for name, setup, parts in fams:
             out.append({"name": kind + ":" + name, "kind": kind, "w": w, "cfg": cfg, "setup": setup, "parts": parts, "fire": None,
                         "values": {fnv_show(v) for v in (BIG1, BIG2, "V0V0V0", "R0R0R0", "P2P2P2", "E2E2E2")}})
+        # promotion with a consistency checker configured: the checker reads both files before the copy
+        cfgc = G.header(w, rd, "byteeq")
+        ER = G.op(0, "ensure", KEY, "val:R0R0R0:2")
+        out.append({"name": kind + ":checked-promote-vs-get", "kind": kind, "w": w, "cfg": cfgc, "fire": None,
+                    "setup": list(cfgc) + ["mkdir " + d, G.plant("r0/" + KEY[0], "R0R0R0")], "parts": [[ER, GET], [GET, GET]],
+                    "values": {"R0R0R0"}})
         # maintenance running while others read and write: capacity 2 (8 for the sharded cache = 2 per shard)
         ws = ("plain", 2) if kind == "plain" else ("sharded", 4, 8)
         cfgs = G.header(ws, rd, "none")
